@@ -311,6 +311,8 @@ def _resolve_loop_keys(fn, headers):
 
 def _hint_text(h):
     h = ' '.join(h.split())
+    if ' ;;; ' in h:   # several hints at one anchor (e.g. two labelled assertions)
+        return ''.join(_hint_text(x) for x in h.split(' ;;; '))
     if h.startswith('RAW:'):
         return '\n/*@H*/ ' + h[4:].strip()
     m = re.match(r'^LABEL:(\S+?):\s*(.*)$', h)
